@@ -36,6 +36,7 @@ class C05(Prop):
     id = 'C05'
     k2_mask = {('node', 'queues'), ('server', 'busy'), ('server', 'cust'), ('ind', 'server'), ('ind', 'sst'), ('node', 'insvc')}      # the slice of the engine state / records this property reads (DESIGN 7, table of slices)
     k2_frames = 40
+    k2_invs2 = {'srv2', 'idle2'}         # the stage-2 T2 invariants (Inv/AllRun2.invs2_b) this property answers for on real snapshots
     k2_invs = {'srv', 'idle'}          # the T2 invariants (Inv/AllRun.invs_b) this property answers for on real snapshots
     num = 5
     regions = {'quick': [('core', 90), ('block', 90), ('routers', 40), ('renege', 60), ('preempt', 60), ('sched', 70),
